@@ -43,6 +43,8 @@ pub assume_specification<T, E, U, F: FnOnce(E) -> U> [std::task::Poll::<std::res
 #[verifier::external_body] pub struct Span { _p: u8 }
 impl Span {
     #[verifier::external_body] pub fn clone(&self) -> (r: Span) { unimplemented!() }
+    #[verifier::external_body] pub fn none() -> (r: Span) { unimplemented!() }
+    #[verifier::external_body] pub fn current() -> (r: Span) { unimplemented!() }
 }
 /// core::task::Context<'_>: opaque; only forwarded to poll functions of the models.
 #[verifier::external_body] pub struct TaskCx { _p: u8 }
